@@ -70,7 +70,9 @@ func VerifC06_ARP() {
 }
 
 func VerifC06_HopByHop() {
+	omittedOptionData = true
 	h := bldHopByHop(vr.U8("next"), true)
+	omittedOptionData = false
 	var kids [][]byte
 	for _, o := range h.Options {
 		ob, _ := o.MarshalBinary()
